@@ -1,6 +1,7 @@
 import RTV.Lemmas.Ip
 import RTV.Lemmas.Seq
 import RTV.Lemmas.Guid
+import RTV.Lemmas.Ip6
 /-!
 # C13 — IP addresses, GUIDs and other sequence entities: sound and complete recognition
 
@@ -107,6 +108,61 @@ theorem real_digits_are_word : ∀ c, 48 ≤ c ∧ c ≤ 57 → RTV.Gen.reTables
   intro c ⟨h1, h2⟩
   have : c = 48 ∨ c = 49 ∨ c = 50 ∨ c = 51 ∨ c = 52 ∨ c = 53 ∨ c = 54 ∨ c = 55 ∨ c = 56 ∨ c = 57 := by omega
   rcases this with rfl | rfl | rfl | rfl | rfl | rfl | rfl | rfl | rfl | rfl <;> decide +kernel
+
+/-! ### IPv6 (`BaseIp.Ipv6Regex`, all nine ellipsis forms; explicit classes, so these hold for every tables) -/
+
+/-- `([0-9a-fA-F]{1,4})` followed by `c`: 1–4 hex digits, then `c`. -/
+theorem hextet_lang (T : Tables) (s : Array Nat) (g i j : Nat) :
+    j ∈ ends T s (hx g) i ↔ HextetAt s i j := by
+  have := seq_hx (T := T) (s := s) (g := g) (i := i) (j := j) (c := .eps)
+  rw [seq_eps_right] at this
+  rw [this]
+  simp only [mem_eps]
+  constructor
+  · rintro ⟨k, h, rfl⟩; exact h
+  · intro h; exact ⟨j, h, rfl⟩
+
+/-- The language of the regenerated `Ipv6Regex`, boundaries included (`V6Match`). -/
+theorem ipv6_lang (T : Tables) (s : Array Nat) (i j : Nat) :
+    Matches T RTV.Gen.ipv6Regex s i j ↔ V6Match T s i j := by
+  unfold Matches; rw [gen_ipv6]; exact ipv6RE_lang s i j
+
+/-- C13 soundness for IPv6: every match is an RFC 4291 text form — eight hextets, or `a` hextets `::` `b` hextets
+with `a + b ≤ 7`. -/
+theorem ipv6_sound (T : Tables) (s : Array Nat) (i j : Nat) (h : Matches T RTV.Gen.ipv6Regex s i j) :
+    V6At s i j := V6Match_sound ((ipv6_lang T s i j).1 h)
+
+/-- C13 completeness for IPv6, exploded and every compressed form: an address text at `[i, j)` with no word
+character touching it from outside is matched from `i` to `j`.  (Which end the engine tries *first* among several
+matching ends is a matter of priority order, covered by the regex correspondence and the pipeline, not by this
+theorem: e.g. from the start of `1::2:3` the lower-priority end after `1::2` is also a match.) -/
+theorem ipv6_complete {T : Tables} (hwx : ∀ c, isHexI c → T.word c = true) (hc : T.word 58 = false)
+    (s : Array Nat) (i j : Nat) (hd : Delim T s i j) (hv : V6At s i j) :
+    Matches T RTV.Gen.ipv6Regex s i j :=
+  (ipv6_lang T s i j).2 (V6At_complete hwx hc hd hv)
+
+/-- the hypotheses hold for the engine's real tables -/
+theorem real_hex_are_word : ∀ c, isHexI c → RTV.Gen.reTables.word c = true := by
+  intro c h
+  unfold isHexI at h
+  have : c = 48 ∨ c = 49 ∨ c = 50 ∨ c = 51 ∨ c = 52 ∨ c = 53 ∨ c = 54 ∨ c = 55 ∨ c = 56 ∨ c = 57 ∨
+      c = 65 ∨ c = 66 ∨ c = 67 ∨ c = 68 ∨ c = 69 ∨ c = 70 ∨ c = 97 ∨ c = 98 ∨ c = 99 ∨ c = 100 ∨ c = 101 ∨ c = 102 := by
+    omega
+  rcases this with rfl | rfl | rfl | rfl | rfl | rfl | rfl | rfl | rfl | rfl | rfl | rfl | rfl | rfl | rfl | rfl |
+    rfl | rfl | rfl | rfl | rfl | rfl <;> decide +kernel
+
+theorem real_colon_not_word : RTV.Gen.reTables.word 58 = false := by decide +kernel
+
+/-- examples (engine's real tables): `fe80::1:2` in ` fe80::1:2 `, and `::` alone -/
+example : firstEnd RTV.Gen.reTables #[32, 102, 101, 56, 48, 58, 58, 49, 58, 50, 32] RTV.Gen.ipv6Regex 1 = some 10 := by
+  decide +kernel
+example : findAll RTV.Gen.reTables #[58, 58] RTV.Gen.ipv6Regex = [(0, 2)] := by decide +kernel
+
+/-- `drop_leading_zeros` keeps the value of every hex group too: `normNumber` preserves the positional value in any
+base for any digit valuation that sends `'0'` to 0 (with `drop_zeros_groupwise`: same IPv6 address). -/
+theorem drop_zeros_group_value (B : Nat) (v : Nat → Nat) (hv : v 48 = 0) (g : List Nat) :
+    posVal B v (normNumber g) = posVal B v g ∧ Canon (normNumber g) :=
+  ⟨normNumber_posVal B v hv g, normNumber_canon g⟩
 
 /-! ### `drop_leading_zeros` -/
 
